@@ -390,6 +390,17 @@ def _keywords_through_edits(ctx, kw, cnode):
             return {id(a): next(k for k, r in enumerate(top._residues) if r is a.residue) for a in at}
         if chain == ("residue", "chain", "index"):
             return {id(a): next(k for k, c in enumerate(top._chains) if c is a.residue.chain) for a in at}
+        # the documented classes of atoms: backbone / side chain are notions of protein residues (a water or an ion has neither)
+        prot = consts.get("_PROTEIN_RESIDUES")
+        wat = consts.get("_WATER_RESIDUES")
+        if chain == ("residue", "is_protein") and prot is not None:
+            return {id(a): a.residue.name in prot for a in at}
+        if chain == ("residue", "is_water") and wat is not None:
+            return {id(a): a.residue.name in wat for a in at}
+        if chain == ("is_backbone",) and prot is not None:
+            return {id(a): a.residue.name in prot and a.name in ("C", "CA", "N", "O") for a in at}
+        if chain == ("is_sidechain",) and prot is not None:
+            return {id(a): a.residue.name in prot and a.name not in ("C", "CA", "N", "O", "HA", "H") for a in at}
         return None
     history = [("as built", lambda: None),
                ("after insert_atom(..., index=0)", lambda: W.call(ts, top, "insert_atom", "X", W.EL["H"], top._residues[0], index=0)),
